@@ -1513,6 +1513,11 @@ where
             return;
         }
 
+        // a spread argument list is left alone: nothing is derived for it
+        if matches!(call_expr.args.get(1), Some(ExprOrSpread { spread: Some(..), .. })) {
+            return;
+        }
+
         // an option the user wrote is kept: nothing to derive for it
         if !has_define_component_option(call_expr, "props") {
             if let Some(prop_types) = self.extract_props_type(&call_expr.args[0]) {
